@@ -10,7 +10,9 @@
              otherwise the rules: seeded copies found through the rule cache, or rules made by
              the search).  EVERY theorem quantifies over all answers; a theorem that needs a
              contract of the search (C04/C09/C11) states it as a hypothesis on `rounds`.
-     deep    false = copy.copy as in the code (shallow); true = a detaching copy
+     deep    true = specification._detached_copy, the code as it is since fix 58ed6bb (the mode the
+             harness runs); false = plain copy.copy (shallow), the code before that fix, kept for
+             C19_no_shared_state_refuted only
      empties the empty classes (CombinatorialClass.is_empty)
      st0     the store: next unused identity, owner of every rule's sub-recurrences
      trace   per round (class expanded, reverse flag of the successful call, retried?)
@@ -109,7 +111,8 @@ Proof.
 Qed.
 
 (* ... and the objects BEHIND the rules: an inner original_rule object or a cache of the result is
-   new, or — with the shallow copy of the code only — an inner object / a cache of the original *)
+   new, or — with the shallow copy of the code BEFORE fix 58ed6bb only (deep = false) — an inner
+   object / a cache of the original *)
 Theorem C19_inner_objects_and_caches :
   forall deep empties fuel n0 s0 rounds st0 s' st' tr',
   n0 <= next st0 ->
@@ -122,8 +125,10 @@ Proof.
   split; [apply fresh_inner; auto|apply fresh_caches; auto].
 Qed.
 
-(* "the result shares no cache and no inner rule object with the original" is FALSE of the code
-   as it is: copy.copy is shallow.  Witnesses (Expand/Example.v): run 1 — the root rule's copy
+(* "the result shares no cache and no inner rule object with the original" was FALSE of the code
+   before fix 58ed6bb (deep = false): copy.copy is shallow.  /repo now uses _detached_copy, for which
+   C19_detached_copy_shares_nothing holds; this theorem witnesses the OLD code only (finding
+   expand-copies-share-caches-with-original, fixed).  Witnesses (Expand/Example.v): run 1 — the root rule's copy
    keeps the cache object 1 of the original's root rule; run 2 — the copied EquivalenceRule keeps
    the original's inner original_rule object 3.  Replayed on the implementation:
    findings/c19_shared_caches.py. *)
